@@ -403,6 +403,10 @@ pub enum Handover {
     OnlyNextLeader,
     /// slots 14 and 15 reach only the next leader
     LastTwoOnlyNextLeader,
+    /// like `OnlyNextLeader`, and a client streams transactions to the next leader whose sizes fill
+    /// every slice of the block it produces optimistically to the last byte (any 63 consecutive
+    /// transactions of the stream are 62 x 512 and 1 x 502 bytes = exactly one slice without parent)
+    OnlyNextLeaderFullSlices,
 }
 
 /// C02's view of the hand-over runs: the whole cluster, 16 s.
@@ -516,7 +520,7 @@ async fn handover_attack(cluster: &Cluster, t: u64, variant: Handover) -> bool {
         let main = mk(1);
         let alt = mk(2);
         for node in [0usize, 1, 2, 4] {
-            let withheld = node != 4 && ((variant == Handover::OnlyNextLeader && slot == 15) || (variant == Handover::LastTwoOnlyNextLeader && slot >= 14));
+            let withheld = node != 4 && (((variant == Handover::OnlyNextLeader || variant == Handover::OnlyNextLeaderFullSlices) && slot == 15) || (variant == Handover::LastTwoOnlyNextLeader && slot >= 14));
             if withheld {
                 continue;
             }
@@ -527,6 +531,14 @@ async fn handover_attack(cluster: &Cluster, t: u64, variant: Handover) -> bool {
         }
         parent = (Slot::new(slot), main.hash.clone());
         delay += 380;
+    }
+    if variant == Handover::OnlyNextLeaderFullSlices {
+        // one transaction every 2 ms from shortly before the next leader starts its window
+        for i in 0..2500u64 {
+            let len = if i % 63 == 61 { 502 } else { 512 };
+            let tx = Transaction(vec![(i % 251) as u8; len]);
+            cluster.hub.inject(port(4, CH_TX), wincode::serialize(&tx).unwrap(), Duration::from_millis(1045 + 2 * i));
+        }
     }
     true
 }
@@ -864,6 +876,23 @@ pub fn run(tier: Tier) -> i32 {
                     format!("finalized slots after 16 s: {:?}", o.finalized),
                     json!({"attack": "handover-equivocation"}),
                 );
+            }
+        }
+    }
+    // the same hand-over with a client that fills every optimistically produced slice to the last byte
+    evals.fetch_add(1, std::sync::atomic::Ordering::Relaxed);
+    match run_one(&[], 1_000_000, 16_000, Handover::OnlyNextLeaderFullSlices) {
+        Err(p) => report.violation("C10:simulation-panicked:handover-with-full-slices".to_string(), p, json!({"attack": "handover-with-full-slices"})),
+        Ok(o) => {
+            println!("  handover-with-full-slices: finalized {:?} panics {}", o.finalized, o.panics.len());
+            if !o.panics.is_empty() {
+                report.violation(
+                    "C10:node-task-panicked:handover-with-full-slices".to_string(),
+                    format!("the next leader builds optimistically on a block the others skip while a client streams transactions that fill each of its slices exactly; when the ready parent turns out to be another block: {:.200}", o.panics[0]),
+                    json!({"attack": "handover-with-full-slices", "transaction_sizes": "periodic, 62 x 512 + 1 x 502 bytes per 63"}),
+                );
+            } else if o.finalized.iter().flatten().any(|f| *f < 24) {
+                report.violation("C10:cluster-stalled:handover-with-full-slices".to_string(), format!("finalized slots after 16 s: {:?}", o.finalized), json!({"attack": "handover-with-full-slices"}));
             }
         }
     }
